@@ -25,7 +25,8 @@ GrpcMillis(t) ==
   ELSE IF u = "m" THEN DL("ms", n)
   ELSE IF u = "u" THEN DL("ms", n \div 1000)
   ELSE DL("ms", n \div 1000000)
-ConnectMillis(t) == IF Len(t) = 10 THEN DL("big", 0) ELSE DL("ms", Num(t, Len(t)))
+AllZero(t) == \A i \in 1..Len(t) : t[i] = "0"
+ConnectMillis(t) == IF AllZero(t) THEN DL("ms", 0) ELSE IF Len(t) = 10 THEN DL("big", 0) ELSE DL("ms", Num(t, Len(t)))
 
 \* granularity (ms, rounded up) of a gRPC timeout written with this unit
 GrpcGranMs(t) == LET u == t[Len(t)] IN
